@@ -731,6 +731,41 @@ pub fn parse_old_name(body: &[u8]) -> Result<OldName, String> {
     Ok(OldName { version, flags_low, name })
 }
 
+/// What the initiator announced about itself, whichever of the two prescribed layouts it used.
+#[derive(Debug, Clone, PartialEq, Eq)]
+pub struct SentName {
+    /// true: 'N' flags(8) creation(4) nlen(2) name (no complement follows); false: 'n' 0005 flags(4) name
+    pub new_format: bool,
+    /// all 64 bits for 'N'; the low 32 bits for 'n' (the high half travels in the complement)
+    pub flags: u64,
+    pub creation: Option<u32>,
+    pub name: Vec<u8>,
+}
+
+pub fn parse_send_name(body: &[u8]) -> Result<SentName, String> {
+    match body.first() {
+        Some(b'n') => {
+            let n = parse_old_name(body)?;
+            if n.version != 5 {
+                return Err(format!("send_name: version {} instead of 5", n.version));
+            }
+            Ok(SentName { new_format: false, flags: u64::from(n.flags_low), creation: None, name: n.name })
+        }
+        Some(b'N') => {
+            let mut c = Cur::new(&body[1..]);
+            let flags = c.u64()?;
+            let creation = c.u32()?;
+            let nlen = usize::from(c.u16()?);
+            let name = c.take(nlen)?.to_vec();
+            if c.left() != 0 {
+                return Err("send_name 'N': trailing bytes".into());
+            }
+            Ok(SentName { new_format: true, flags, creation: Some(creation), name })
+        }
+        other => Err(format!("send_name: tag {:?} is neither 'n' nor 'N'", other)),
+    }
+}
+
 /// 'c' flagsHigh(4) creation(4)
 pub fn parse_complement(body: &[u8]) -> Result<(u32, u32), String> {
     let mut c = Cur::new(body);
